@@ -114,7 +114,7 @@ Record diff := mkDiff {
   d_kind : diff_kind;
   d_why : string }.
 
-Definition allowed_diffs : list diff := [
+Definition allowed_diffs : list diff := Eval vm_compute in [
   mkDiff "closed-store-guard" ["Enqueue"; "Dequeue"; "ListMessages"; "CaptureBacklogTrendSample"; "ListBacklogTrend"]
     (words "#start")
     (words "#start #if go{s == nil || s.db == nil} #ret:new{postgres store is closed} #end")
@@ -518,14 +518,15 @@ Fixpoint apply_diffs (ds : list diff) (name : string) (l : list string) : list s
     else apply_diffs r name l
   end.
 
-Definition sk_table (cm : callmap) (d : dialect) (tbl : list (string * list string)) : list (string * list string) :=
-  map (fun p => (fst p, norm cm d (snd p))) tbl.
+(** the normalised skeletons of the helpers that are read in place *)
+Definition sk_table (cm : callmap) (d : dialect) (names : list string) (tbl : list (string * list string)) : list (string * list string) :=
+  map (fun p => (fst p, norm cm d (snd p))) (filter (fun p => mem (fst p) names) tbl).
 
 (** the normalised SQLite side of a tie: helpers read in place, then the listed differences *)
 (** both sides start with the marker [#start], so that a listed difference can be anchored at the beginning *)
 Definition sqlite_side (tbl : list (string * list string)) (name : string) (sk : list string) : list string * list string :=
   apply_diffs allowed_diffs name
-    ("#start" :: inline 3 sqlite_inlined (sk_table sqlite_calls Sqlite tbl) (norm_sqlite sk)).
+    ("#start" :: inline 3 sqlite_inlined (sk_table sqlite_calls Sqlite sqlite_inlined tbl) (norm_sqlite sk)).
 
 Definition pg_side (sk : list string) : list string := "#start" :: norm_pg sk.
 
